@@ -1524,6 +1524,12 @@ def generate_route():
                 if m.name == 'coordinate':
                     tr = RouteTranslator('Point.coordinate')
                     lines.append('Definition gen_route_Point_coordinate : rfun := %s.' % tr.function(m, True))
+    import re as _re
+    names = [_re.match(r'Definition (gen_route_\w+) : rfun', l).group(1) for l in lines if l.startswith('Definition gen_route_') and ' : rfun' in l]
+    lines.append('')
+    lines.append('(* every translated route body, for the reset-before-read discipline *)')
+    lines.append('Definition gen_route_all : list (string * rfun) := ' +
+                 coq_list(['(%s, %s)' % (coq_str(n), n) for n in names]) + '.')
     lines.append('')
     lines.append('(* owner, function, the default values of its trailing parameters *)')
     lines.append('Definition gen_route_defaults : list (string * string * list string) := ' +
